@@ -9,7 +9,7 @@ from harness.common import cps, uncps
 from harness.props import c03
 from harness.props.c02 import chain_plan
 
-BRIDGE = ('Gemato.Bridge.FindTop', 'Gemato.Bridge.Profile')
+BRIDGE = ('Gemato.Bridge.FindTop', 'Gemato.Bridge.Profile', 'Gemato.Bridge.SrcUpdate')
 PROPS = ['Gemato.Props.C13']
 FORMATS = ['', '.gz', '.bz2', '.lzma', '.xz']
 
